@@ -19,6 +19,8 @@ pub mod c18;
 pub mod c19;
 pub mod c20;
 pub mod rehash;
+pub mod widebattery;
+pub mod widechurn;
 
 pub fn configs(prop: &str, tier: Tier) -> Option<Vec<Box<dyn Config>>> {
     Some(match prop {
